@@ -1,12 +1,39 @@
 #!/usr/bin/env python3
-"""Runs the owning check (quick; thorough if quick misses) against every seeded change and records the result
-in seeded/<id>/meta.json and seeded/MATRIX.md."""
+"""tools/seedmatrix.py [seed names...]   runs the owning check (quick; thorough if quick misses) against the given
+seeded changes (default: all) and records the result in seeded/<id>/meta.json;
+tools/seedmatrix.py --assemble           writes seeded/MATRIX.md from all meta.json files."""
 import json, os, re, subprocess, sys
 V = "/verif"
-rows = []
+SD = os.path.join(V, "seeded")
+
+
+def assemble():
+    rows = []
+    for d in sorted(os.listdir(SD)):
+        mp = os.path.join(SD, d, "meta.json")
+        if not os.path.exists(mp):
+            continue
+        meta = json.load(open(mp))
+        res = meta.get("checked_with", {})
+        tier = [t for t in ("quick", "thorough") if res.get(t, {}).get("exit") == 1]
+        rows.append((d, meta["property"], tier[0] if tier else ("MISSED" if res else "not run"),
+                     ", ".join(res[tier[0]]["asserts"][:4]) if tier else ""))
+    with open(os.path.join(SD, "MATRIX.md"), "w") as f:
+        f.write("| seed | property | caught by tier | assertions that fired |\n|---|---|---|---|\n")
+        for r in rows:
+            f.write("| %s | %s | %s | %s |\n" % r)
+    n = len(rows)
+    q = sum(1 for r in rows if r[2] == "quick")
+    t = sum(1 for r in rows if r[2] == "thorough")
+    print("%d seeds: %d caught by quick, %d by thorough only, %d missed/not run" % (n, q, t, n - q - t))
+
+
+if len(sys.argv) > 1 and sys.argv[1] == "--assemble":
+    assemble()
+    sys.exit(0)
 only = sys.argv[1:]
-for d in sorted(os.listdir(os.path.join(V, "seeded"))):
-    p = os.path.join(V, "seeded", d)
+for d in sorted(os.listdir(SD)):
+    p = os.path.join(SD, d)
     if not os.path.isdir(p) or (only and d not in only):
         continue
     meta = json.load(open(os.path.join(p, "meta.json")))
@@ -21,10 +48,4 @@ for d in sorted(os.listdir(os.path.join(V, "seeded"))):
     meta["checked_with"] = res
     meta["detected"] = any(r.get("exit") == 1 for r in res.values())
     json.dump(meta, open(os.path.join(p, "meta.json"), "w"), indent=1)
-    tier = [t for t, r in res.items() if r.get("exit") == 1]
-    rows.append((d, meta["property"], tier[0] if tier else "MISSED", ", ".join(res[tier[0]]["asserts"][:4]) if tier else ""))
-    print(rows[-1], flush=True)
-with open(os.path.join(V, "seeded", "MATRIX.md"), "w") as f:
-    f.write("| seed | property | caught by tier | assertions that fired |\n|---|---|---|---|\n")
-    for r in rows:
-        f.write("| %s | %s | %s | %s |\n" % r)
+    print(d, {t: (r.get("exit"), r.get("asserts", [])[:3]) for t, r in res.items()}, flush=True)
